@@ -169,6 +169,48 @@ def run(rep, tier, seed):
             return ("textpos:shape-class-lost", str(shape.classes()))
         return None
     geom.run_and_compare(rep, pcases, check, "c19p")
+    # multi-line layout
+    lrecs = geom.run_geom_family(rep, "textlines", tier, [])
+    lcases = []
+    for j, c in enumerate(lrecs):
+        ref = geom.ref_element(c["shape"], c["box"], "s")
+        cls = ["d-text-" + c["side"]] if c["side"] != "default" else []
+        text = rnd.choice(["\\n", "&#10;"]).join(f"L{i + 1}" for i in range(c["n"]))
+        extra = f' text="{text}" text-loc="{c["loc"]}"' + (f' class="{" ".join(cls)}"' if cls else "")
+        if c["lsp"]:
+            extra += f' text-lsp="{c["lsp"] / 1000:g}"'
+        xml = "<svg>" + ref.replace("/>", extra + "/>", 1) + "</svg>"
+        lcases.append({"k": f"c19l-{j}", "xml": xml, "case": c, "key": xml})
+
+    def lcheck(c, resp):
+        cs = c["case"]
+        if resp["status"] != "ok":
+            return ("textlines:not-ok", resp.get("err"))
+        root = vlib.parse_xml(resp["out"])
+        texts = [e for e in vlib.elements(root) if e.name == "text"]
+        if len(texts) != 1:
+            return ("textlines:missing", f"{len(texts)} text elements")
+        t = texts[0]
+        spans = [e for e in t.children if e.kind == "el" and e.name == "tspan"]
+        if [sp.text_content() for sp in spans] != [f"L{i + 1}" for i in range(cs["n"])]:
+            return ("textlines:lines", f"tspans {[sp.text_content() for sp in spans]}")
+        ex, ey = cs["anchor"][0] / 4, cs["anchor"][1] / 4
+        x, y = vlib.fnum(t.attrs.get("x", "")), vlib.fnum(t.attrs.get("y", ""))
+        if x is None or y is None or abs(x - ex) > 0.0015 or abs(y - ey) > 0.0015:
+            return ("textlines:anchor", f"text at ({t.attrs.get('x')}, {t.attrs.get('y')}), reference rules give ({ex}, {ey})")
+        want = [cs["first"]] + [cs["step"]] * (cs["n"] - 1)
+        got = []
+        for sp in spans:
+            d = sp.attrs.get("dy", "")
+            v = vlib.fnum(d[:-2]) if d.endswith("em") else None
+            got.append(None if v is None else v * 1000)
+            sx = vlib.fnum(sp.attrs.get("x", ""))
+            if sx is None or abs(sx - x) > 0.0015:
+                return ("textlines:tspan-x", f"tspan x={sp.attrs.get('x')} differs from the text's x={t.attrs.get('x')}")
+        if any(g is None or abs(g - w) > 1.5 for g, w in zip(got, want)):
+            return ("textlines:dy", f"tspan dy (thousandths of an em) {got}, the layout rule gives {want}")
+        return None
+    geom.run_and_compare(rep, lcases, lcheck, "c19l")
     rep.notes["rule"] = "Text.tla LineCases (carrier x string) and Geom.tla TextPosCases (shape x location x side x vertical x offsets)"
     rep.notes["exhaustive"] = big
     rep.bounds["lines"] = {"MaxLen": maxlen}
